@@ -25,6 +25,20 @@ def wrap_schemas(js, last=False):
     return w, r
 
 
+def with_enum_defaults(js):
+    """The schema with a default symbol on every enum definition (nothing else changes)."""
+    if isinstance(js, list):
+        return [with_enum_defaults(b) for b in js]
+    if isinstance(js, dict):
+        out = {k: (with_enum_defaults(v) if k in ("type", "items", "values") and not isinstance(v, str) else v) for k, v in js.items()}
+        if js.get("type") == "enum":
+            out["default"] = js["symbols"][0]
+        if js.get("type") in ("record", "error"):
+            out["fields"] = [dict(f, type=with_enum_defaults(f["type"])) for f in js["fields"]]
+        return out
+    return js
+
+
 def _varint(n):
     o = bytearray()
     B.enc_long(n, o)
@@ -242,6 +256,7 @@ class C03(Check):
         # ---- positive: read under a reader schema (the resolving item readers), value kept
         kw_ = {"type": "record", "name": WRAP, "fields": [{"name": "kept", "type": js}, {"name": "sentinel", "type": "long"}]}
         kr_ = {"type": "record", "name": WRAP, "doc": "same schema, not the same object", "fields": [{"name": "sentinel", "type": "long"}, {"name": "kept", "type": copy.deepcopy(js)}]}
+        kr_dflt = {"type": "record", "name": WRAP, "doc": "enums with defaults", "fields": [{"name": "kept", "type": with_enum_defaults(copy.deepcopy(js))}, {"name": "sentinel", "type": "long"}]}
         got, p = guard("resolve-valid-encoding", self._skip, kw_, kr_, enc + tail)
         labels.add("resolve-path")
         if p != len(enc) + len(tail) or not isinstance(got, dict) or got.get("sentinel") != SENTINEL or not B.same(got.get("kept"), expect):
@@ -273,6 +288,15 @@ class C03(Check):
                     raise Violation(
                         "bad-index-accepted:skip-last:" + ("negative" if new < 0 else "high") + ":" + t,
                         f"{'union' if t=='u' else 'enum'} index {new} (valid 0..{lim-1}) at offset {off} skipped silently as last field; schema={js!r} enc={mutated[:80].hex()}",
+                    )
+                # the same under a resolving reader whose enums all declare a default (meant for symbols the reader does not
+                # know, not for indices the writer's schema does not have)
+                o3 = outcome(self._skip, kw_, kr_dflt, mutated + tail)
+                labels.add("bad-index-under-reader-with-enum-defaults")
+                if o3[0] == "ok":
+                    raise Violation(
+                        "bad-index-accepted:resolve:" + ("negative" if new < 0 else "high") + ":" + t,
+                        f"{'union' if t=='u' else 'enum'} index {new} (valid 0..{lim-1}) at offset {off} read under an equivalent reader schema with enum defaults returned {o3[1][0]!r:.120}; schema={js!r} enc={mutated[:80].hex()}",
                     )
                 o = outcome(self._skip, w, r, mutated + tail)
                 if o[0] == "ok":
